@@ -294,3 +294,56 @@ Proof.
     rewrite Hlit in HT1. apply in_map_iff in HT1. destruct HT1 as (T & <- & HT).
     exists T. split; [exact HT | apply obs_eq_sym; exact O].
 Qed.
+
+(** ** the bound evaluated by the run function is the bound of the C06 specification *)
+Lemma c_comp_bound_eq enum strict H P : c_comp_bound enum strict H P = comp_bound enum strict H P.
+Proof. reflexivity. Qed.
+
+Lemma comp_bound_ext (enum enum' : list N -> list N -> list C06_Model.mapping) strict H P :
+  (forall hn pn, enum hn pn = enum' hn pn) -> comp_bound enum strict H P = comp_bound enum' strict H P.
+Proof.
+  intros E.
+  assert (Ep : forall pc, percc_of enum H pc = percc_of enum' H pc).
+  { intros pc. unfold percc_of, percc. apply flat_map_ext. intros ih. rewrite E. reflexivity. }
+  unfold comp_bound, comp_unl. rewrite E. f_equal.
+  - f_equal. destruct (length (C06_Model.comps P) =? 0); [reflexivity|].
+    destruct (length (C06_Model.comps H) <? length (C06_Model.comps P)); [reflexivity|].
+    destruct ((length (C06_Model.comps P) <? length (C06_Model.comps H)) && strict)%bool; [reflexivity|].
+    f_equal. f_equal. apply map_ext. exact Ep.
+  - apply map_ext. intros pc. rewrite Ep. reflexivity.
+Qed.
+
+Lemma side_okb_c_ok host p : side_okb_c host p = true -> side_ok_c host p.
+Proof.
+  unfold side_okb_c. intros H. apply andb_prop in H. destruct H as [H1 H2]. split; [apply side_okb_ok; exact H1|].
+  apply N.leb_le in H2. rewrite c_comp_bound_eq in H2.
+  rewrite <- (comp_bound_ext (monos_on' (host_c06 host) (pat_c06 (p_pat p))) (C06_Model.monos_on (host_c06 host) (pat_c06 (p_pat p)))
+                true _ _ (fun hn pn => monos_on'_eq _ _ hn pn)).
+  exact H2.
+Qed.
+
+Lemma vocabulary_c :
+  (forall f, inj f <-> forall a b : N, f a = f b -> a = b) /\
+  (forall sg pi (m : mapping), mv sg pi m = map (fun ph => (sg (fst ph), pi (snd ph))) m) /\
+  (forall (g g' : hostg), same_graph g g' <->
+     (forall u, label g' u = label g u) /\ (forall u v, LGraph.adj g' u v = LGraph.adj g u v) /\
+     (forall u, In u (node_ids g) <-> In u (node_ids g')) /\ NoDup (node_ids g) /\ NoDup (node_ids g')) /\
+  (forall (T T' : its), obs_eq T T' <->
+     (forall n, label T' n = label T n) /\ (forall a b, LGraph.adj T' a b = LGraph.adj T a b)) /\
+  (forall host p, side_okb host p = true ->
+     p_flag p = false /\ gwf (host_c06 host) /\ gwf (pat_c06 (p_pat p)) /\
+     (C06_Model.lenN (C06_Model.monos_on (host_c06 host) (pat_c06 (p_pat p))
+                        (node_ids (host_c06 host)) (node_ids (pat_c06 (p_pat p)))) <= DEFAULT_THRESHOLD)%N /\
+     NoDup (node_ids (p_rc p)) /\ simple_edgesb (gedges (p_rc p)) = true /\
+     (forall a b x, In (a, b, x) (gedges (p_rc p)) -> In a (node_ids (p_rc p)) /\ In b (node_ids (p_rc p))) /\
+     (forall u, In u (node_ids (p_pat p)) -> In u (node_ids (p_rc p)))) /\
+  (forall host p, side_okb_c host p = true ->
+     side_okb host p = true /\
+     (comp_bound (C06_Model.monos_on (host_c06 host) (pat_c06 (p_pat p))) true (host_c06 host) (pat_c06 (p_pat p)) <= DEFAULT_THRESHOLD)%N).
+Proof.
+  destruct vocabulary as (V1 & V2 & V3 & V4 & V5).
+  split; [exact V1|]. split; [exact V2|]. split; [exact V3|]. split; [exact V4|]. split; [exact V5|].
+  intros host p H. split.
+  - unfold side_okb_c in H. apply andb_prop in H. exact (proj1 H).
+  - exact (proj2 (side_okb_c_ok host p H)).
+Qed.
